@@ -18,6 +18,17 @@ Decided:
          content_length (from getsize) and last_modified (from get_file_mtime) are all assigned before return;
   R14.e  StaticApplication registers '/<path*>' bound to get_file_response, which joins segments with '/'.
 Declined: byte equality of bodies, MIME guessing, date formatting.
+
+Constructs are located by role, not by spelling.  The loader dissolves private helpers into their callers; on top of
+that the rules follow: tests held in a single-assignment local (``flag = X.startswith('/')`` ... ``if flag``,
+also wrapped in ``bool()``) and boolean combinations of the refusals with ``limit_root`` (_edge_facts); several names for
+the one normalised path; plain copies of locals and tuple (un)packing when asking where a header value / the wrapped
+file / the compared mtime comes from (_sources: all bindings, flow-insensitive); ``except <module-level tuple of
+classes>`` (_caught_names); ``exc = Forbidden(..); raise exc``; module-level constants for the route pattern, the
+status code and ``is_breaking``; ``mtime <= t`` written as ``t >= mtime`` or as the else-branch of ``mtime > t``; the
+search loop written with a guard + continue or as ``next((p for .. if isfile(p)), None)``; keyword or positional
+arguments.  A value or test that moved into a function of the package which is *not* dissolved (public name) is an
+ANALYSIS-ERROR ("not followed"), not a violation; a private function nothing refers to any more is not on the serving path.
 """
 import ast
 
@@ -49,7 +60,7 @@ def _is_param(e, name=None):
 def _sources(fi, name, seen=None):
     """Every value expression that can end up bound to the local / parameter ``name`` of ``fi`` (flow-insensitive,
     therefore valid at every use): plain copies of other locals (``a = b``) are followed, a parameter contributes a
-    ``_Param`` marker, ``a, b = x, y`` contributes the matching element, ``a, b = f()`` contributes ``f()[i]``; an
+    marker Name (_param), ``a, b = x, y`` contributes the matching element, ``a, b = f()`` contributes ``f()[i]``; an
     augmented assignment / loop / with / except binding contributes the binding statement itself (never accepted by
     a predicate on expressions)."""
     seen = set() if seen is None else seen
